@@ -73,12 +73,6 @@ func leanNat(n int64) string {
 	return strconv.FormatInt(n, 10)
 }
 
-func leanBool(b bool) string {
-	if b {
-		return "true"
-	}
-	return "false"
-}
 
 // conjuncts splits a && b && c.
 func conjuncts(e ast.Expr) []ast.Expr {
